@@ -16,10 +16,10 @@ import (
 	"math"
 	"os"
 	"strings"
-	"time"
 
 	"verif/lib/dbh"
 	"verif/lib/kvseq"
+	"verif/lib/schedmc"
 	"verif/lib/seqmc"
 	"verif/lib/vr"
 )
@@ -135,31 +135,27 @@ func main() {
 	}
 	base := r.Scratch()
 	total := r.RunSharded(vr.Workers(), func(sh vr.ShardInfo, p *vr.Partial) {
-		start, budget := time.Now(), r.Remaining()
+		// every configuration gets an equal share of what is left of the budget; configurations
+		// that hit their share are taken up again with what the others left unused
+		var items []schedmc.Item
 		for ci, c := range cfgs {
 			prm := params(c, fmt.Sprintf("%s/s%d-c%d", base, sh.Index, ci), true)
-			sub := vr.NewPartial()
-			// time slicing: configuration i may run until (i+1)/n of the budget is used, so a slow
-			// early configuration cannot starve the later ones (unused time carries over)
-			slice := start.Add(budget * time.Duration(ci+1) / time.Duration(len(cfgs)))
-			expired := func() bool { return r.Expired() || time.Now().After(slice) }
-			seqmc.Explore(seqmc.Config{New: func() seqmc.Instance { return kvseq.New(prm) }, MaxDepth: c.Depth,
-				Shard: sh, Expired: expired,
-				OnLeaf: func(path []string, _ seqmc.Instance) { classifyPath(path, sub) }}, sub)
-			for i := range sub.Violations {
-				v := &sub.Violations[i]
-				// every reported failure must reproduce identically on fresh instances
-				if !confirm(c, fmt.Sprintf("%s/s%d-c%d-confirm", base, sh.Index, ci), v, reruns(i)) {
-					v.Sig = "nondeterministic:" + v.Sig
+			items = append(items, schedmc.Item{Name: c.Name, Run: func(expired func() bool, sub *vr.Partial) {
+				seqmc.Explore(seqmc.Config{New: func() seqmc.Instance { return kvseq.New(prm) }, MaxDepth: c.Depth,
+					Shard: sh, Expired: expired,
+					OnLeaf: func(path []string, _ seqmc.Instance) { classifyPath(path, sub) }}, sub)
+				for i := range sub.Violations {
+					v := &sub.Violations[i]
+					// every reported failure must reproduce identically on fresh instances
+					if !confirm(c, fmt.Sprintf("%s/s%d-c%d-confirm", base, sh.Index, ci), v, reruns(i)) {
+						v.Sig = "nondeterministic:" + v.Sig
+					}
+					v.Replay = fmt.Sprintf(`{"Config":%q,"Path":%s}`, c.Name, v.Replay)
+					v.Desc = "config=" + c.Name + " " + v.Desc
 				}
-				v.Replay = fmt.Sprintf(`{"Config":%q,"Path":%s}`, c.Name, v.Replay)
-				v.Desc = "config=" + c.Name + " " + v.Desc
-			}
-			if sub.TimedOut {
-				p.Add("incomplete:"+c.Name, 1)
-			}
-			p.Merge(sub)
+			}})
 		}
+		schedmc.ExploreAll(r, p, items)
 		for k, v := range kvseq.OpCount {
 			p.Add("op:"+k, v)
 		}
@@ -177,6 +173,11 @@ func main() {
 	}
 	states := total.Card("states")
 	r.RequireOutcomes(states, 10)
+	var cfgNames []string
+	for _, c := range cfgs {
+		cfgNames = append(cfgNames, c.Name)
+	}
+	completed := schedmc.Completed(total, cfgNames)
 	r.Finish(vr.Coverage{
 		Level:       "model_checking",
 		Evaluations: total.Counters["executions"],
@@ -186,12 +187,11 @@ func main() {
 		States:      states,
 		Transitions: total.Counters["transitions"],
 		Validated:   total.Counters["executions"],
-		Exhaustive:  !total.TimedOut,
+		Exhaustive:  len(completed) == len(cfgs),
 		Outcomes:    states,
-		Bounds:      map[string]any{"configs": names(cfgs), "probe_versions": "1,2,3,4,max", "quick": r.Quick()},
+		Bounds:      map[string]any{"configs": names(cfgs), "probe_versions": "1,2,3,4,max", "quick": r.Quick(), "configs_enumerated_completely": completed},
 		Extra: map[string]any{"pruned_by_state_key": total.Counters["pruned"], "noop_cut": total.Counters["cut_noop"],
-			"incomplete_configs_workers": prefixed(total, "incomplete:"),
-			"replayed_steps":             total.Counters["replayed_steps"], "max_depth": total.Counters["max_depth"], "ops_applied": opCounts(total),
+			"replayed_steps": total.Counters["replayed_steps"], "max_depth": total.Counters["max_depth"], "ops_applied": opCounts(total),
 			"leaf_paths_with_same_version_rewrite":  total.Counters["leaf:same-version-rewrite"],
 			"leaf_paths_with_out_of_order_versions": total.Counters["leaf:out-of-order"],
 			"leaf_paths_memtable_only":              total.Counters["leaf:no-maintenance"],
